@@ -5,7 +5,7 @@
 # VERIF_OUT so that committed evidence/replays are not touched.
 set -u
 WT=$1; PATCH=$2; shift 2
-git -C "$WT" checkout -q -- . && git -C "$WT" checkout -q --detach main && git -C "$WT" apply "$PATCH" || { echo "patch does not apply"; exit 3; }
+[ -d "$WT" ] || git -C /repo worktree add -q --detach "$WT" main; git -C "$WT" checkout -q -- . && git -C "$WT" checkout -q --detach main && git -C "$WT" apply "$PATCH" || { echo "patch does not apply"; exit 3; }
 OUT=$(mktemp -d /tmp/mutout.XXXXXX)
 for pid in "$@"; do
   echo "=== $pid vs $(basename "$PATCH")"
